@@ -157,6 +157,18 @@ def gen_triangle(rng, stream):
         if s >= 1e-3:
             break
     p1 = np.array(gens.fvec(rng, pos))
+    if rng.random() < 0.3:
+        # needle: one edge 1..9 % of the longest, opposite any of the three corners (clearly not collinear: sine >= 1e-2)
+        while True:
+            d = np.array(gens.unit(rng))
+            d = d - np.dot(d, e1) / np.dot(e1, e1) * e1
+            if np.linalg.norm(d) > 0.3:
+                break
+        e2 = e1 * rng.uniform(0.9, 1.1) + d / np.linalg.norm(d) * np.linalg.norm(e1) * rng.uniform(0.01, 0.09)
+        pts = [p1, p1 + e1, p1 + e2]
+        k = rng.randrange(3)
+        pts = pts[k:] + pts[:k]
+        return [q.tolist() for q in pts]
     return p1.tolist(), (p1 + e1).tolist(), (p1 + e2).tolist()
 
 
